@@ -303,3 +303,41 @@ Example unflagged_event_is_logged :
   out_log id_strip (fun e => Some (ev_last e)) (plain_ev c_PASS [bs "hunter2"]) = [bs "hunter2"] /\
   out_log id_strip (fun e => Some (ev_last e)) (pass_event (bs "hunter2")) = [].
 Proof. vm_compute. repeat split. Qed.
+
+(* ---- mechanisms that keep state: the same non-interference, step lists compared pairwise -- *)
+
+Definition steps_low_eq (s1 s2 : list (sasl_mech * event)) : Prop :=
+  Forall2 (fun x y => snd x = snd y /\ mech_low_eq (fst x) (fst y)) s1 s2.
+
+Lemma set_sasl_low_eq c1 c2 m1 m2 :
+  cfg_low_eq c1 c2 -> mech_low_eq m1 m2 -> cfg_low_eq (set_sasl c1 m1) (set_sasl c2 m2).
+Proof.
+  intros [_ Hp Hw Ht Hn Hu Hna] Hm. constructor; cbn [set_sasl cfg_sasl cfg_server_pass cfg_webirc
+    cfg_tracking cfg_nick cfg_user cfg_name sasl_low_eq]; assumption.
+Qed.
+
+Section SessionLogStatefulNI.
+  Variable strip_raw : str -> str.
+  Variable pretty_rest : event -> option str.
+
+  Theorem session_log_stateful_ni c1 c2 s1 : forall s2 cn,
+    cfg_low_eq c1 c2 -> steps_low_eq s1 s2 ->
+    session_log_stateful strip_raw pretty_rest c1 cn s1 =
+    session_log_stateful strip_raw pretty_rest c2 cn s2.
+  Proof.
+    induction s1 as [|[m1 e1] s1 IH]; intros s2 cn Hc Hs; inversion Hs as [|x y l1 l2 [He Hm] Hrest]; subst.
+    - reflexivity.
+    - destruct y as [m2 e2]. cbn [fst snd] in He, Hm. subst e2. cbn [session_log_stateful].
+      destruct (feed_ni (set_sasl c1 m1) (set_sasl c2 m2) cn e1 (set_sasl_low_eq c1 c2 m1 m2 Hc Hm))
+        as [cn1 [o1 [o2 [H1 [H2 Hr]]]]].
+      rewrite H1, H2, (IH l2 cn1 Hc Hrest). f_equal.
+      destruct (cn_returned cn); [reflexivity|]. f_equal.
+      exact (map_output_log_redact strip_raw pretty_rest _ _ Hr).
+  Qed.
+End SessionLogStatefulNI.
+
+Example steps_low_eq_example :
+  steps_low_eq
+    [(mkMech (bs "X") (fun _ => bs "c2VjcmV0MQ=="), ex_plus); (mkMech (bs "X") (fun _ => []), ex_plus)]
+    [(mkMech (bs "X") (fun _ => bs "b3RoZXJzZWM="), ex_plus); (mkMech (bs "X") (fun _ => []), ex_plus)].
+Proof. repeat constructor; intros; reflexivity. Qed.
